@@ -104,6 +104,9 @@ def afilterfalse(function, sequence):
     Returns a list.
 
     """
+    if function is None:
+        return list(itertools.filterfalse(None, sequence))
+
     sequence = list(sequence)
     should_exclude = yield [function.asynq(elt) for elt in sequence]
     should_include = [not res for res in should_exclude]
